@@ -246,6 +246,39 @@ def run(chk):
             chk.evals(total)
             chk.part('replay_' + law, runs=total)
             os.remove(res.dump_path)
+    # reversal-only sequences over -3..3 (7 / 8 samples) with the Masing-consistent cubic law: deeper HCM memory than the full alphabet reaches
+    # (the non-Masing law asym is not used here: under it the running strain extremes of different points of a batch are attained at different
+    # samples, and the code - like the guideline - decides them for all points from the first one; no admissible material behaves like that);
+    # quick replays a fixed eighth of the sequences with at least 6 samples
+    law, scale = 'cubic', LAWS['cubic']
+    cfgname = 'MC_HCM_c05_cubic_rev_%s.cfg' % tier
+    res = tlc.run(TLA, os.path.join(SPEC, 'hcm', cfgname), dump=True, timeout=3000, heap='12g')
+    chk.tlc(cfgname, res, 'HCM bookkeeping, strictly alternating load sequences over -3..3 (x2), law cubic')
+    if res.violated:
+        chk.machinery.append('model invariant %s violated: %s' % (res.violated, res.trace[-1:]))
+    if res.dump_path and os.path.exists(res.dump_path):
+        sel, k = [], 0
+        for blocks in par.split_dump(res.dump_path, 64):
+            keep = []
+            for b in blocks:
+                i = b.find('s = <<')
+                ln = b[i:b.find('>>', i)].count(',') + 1 if i >= 0 else 0
+                if ln >= 6:
+                    k += 1
+                    if not quick or k % 8 == chk.seed % 8:
+                        keep.append(b)
+            sel.append(keep)
+        total = 0
+        for n, nontriv, drift, viol, samples in par.pmap(_replay_blocks, [(p, law, scale, chk.seed * 1000 + 500 + i) for i, p in enumerate(sel)], chunksize=1):
+            total += n
+            for kk in nontriv:
+                chk.nontrivial(kk)
+            for what, case, exp, got in viol:
+                chk.violation(what, case, exp, got, part='replay_reversals')
+        chk.cov['traces_validated_against_impl'] += total
+        chk.evals(total)
+        chk.part('replay_reversals_' + law, runs=total, of_sequences_with_6_or_more_samples=k)
+        os.remove(res.dump_path)
     # extension beyond C05: chunk independence of FKMNonlinearDetector.process() (MC_HCMChunks), replayed; mismatches are drift
     cres = tlc.run(os.path.join(SPEC, 'hcm', 'MC_HCMChunks.tla'), os.path.join(SPEC, 'hcm', 'MC_HCMChunks.cfg'), dump=True, timeout=3000, heap='12g')
     chk.tlc('MC_HCMChunks.cfg', cres, 'extension: process() of the HCM detector is independent of the chunking (rows, running extremes, strain list, counters)')
